@@ -777,6 +777,13 @@ func (ce *cenv) pseudo(name string, x *ast.CallExpr) (Val, bool) {
 		n := *ce
 		n.st = ce.old
 		return n.eval(x.Args[0]), true
+	case "iter": // value at the start of the current loop iteration (only in `loop N step` clauses)
+		if ce.fr == nil || ce.fr.curIter == nil {
+			ce.fail(x, "iter() outside a step clause")
+		}
+		n := *ce
+		n.st = ce.fr.curIter
+		return n.eval(x.Args[0]), true
 	case "forall", "exists":
 		// forall(i, lo, hi, body):  lo <= i < hi
 		id := x.Args[0].(*ast.Ident)
@@ -887,7 +894,11 @@ func (ce *cenv) pseudo(name string, x *ast.CallExpr) (Val, bool) {
 		a := arg(0)
 		t := a.L[0]
 		for i := 1; i < len(x.Args); i++ {
-			t = app("select", t, arg(i).L[0])
+			idx := arg(i).L[0]
+			t = app("select", t, idx)
+			if rec, ok := ex.qrec[idx]; ok && i == len(x.Args)-1 {
+				rec.pats = append(rec.pats, t)
+			}
 		}
 		return Val{T: types.Typ[types.Int], L: []string{t}}, true
 	case "selb":
@@ -1021,6 +1032,10 @@ func orientQuant(q, bv, rng, body string, rec *qRecord) string {
 		return and(r, b)
 	}
 	plain := "(" + q + " ((" + bv + " Int)) " + mk(rng, body) + ")"
+	if rec != nil && len(rec.acc) == 0 && len(rec.pats) > 0 && !strings.Contains(rec.pats[0], "l!") && !strings.Contains(rec.pats[0], "(ite ") {
+		// a ghost array indexed directly by the bound variable gives the pattern
+		return "(" + q + " ((" + bv + " Int)) (! " + mk(rng, body) + " :pattern (" + rec.pats[0] + ")))"
+	}
 	if rec == nil || len(rec.acc) == 0 {
 		return plain
 	}
